@@ -1,6 +1,6 @@
 (* C17 — property theorems only.  Statements are pinned with Check; proofs are in C17/Proofs.v. *)
 From Coq Require Import List NArith Bool.
-From DV Require Import C17.Model C17.Proofs.
+From DV Require Import C17.Model C17.Proofs C17.Abstract C17.AbstractProofs.
 Import ListNotations.
 Open Scope N_scope.
 
@@ -9,7 +9,7 @@ Proof. exact reachable_inv. Qed.
 
 Theorem C17_refines_abstract : forall ops,
   defs (fst (run remove init ops)) = adefs (fst (arun ainit ops)) /\
-  (forall k, mem k (evs (fst (run remove init ops))) = mem k (aevs (fst (arun ainit ops)))) /\
+  (forall k, lookup k (evs (fst (run remove init ops))) = lookup k (aevs (fst (arun ainit ops)))) /\
   snd (run remove init ops) = snd (arun ainit ops).
 Proof. exact refines_abstract. Qed.
 
@@ -17,18 +17,20 @@ Theorem C17_add_iff_free : forall ops m, let s := fst (run remove init ops) in
   snd (add s m) = true <-> (forall d, In d (defs s) -> ns d <> ns m /\ nm d <> nm m).
 Proof. exact add_iff_free. Qed.
 
-Theorem C17_deployed_exactly : forall pre post k, forallb is_eval post = true ->
-  mem k (evs (fst (run remove init (pre ++ Deploy :: post)))) = true <->
-  exists d, In d (defs (fst (run remove init pre))) /\ builds d = true /\ nm d = k.
+(* after the last deploy (only evaluations since) the name k is served by the document d iff a model of that name and
+   document was stored at that deploy and builds *)
+Theorem C17_deployed_exactly : forall pre post k d, forallb is_eval post = true ->
+  lookup k (evs (fst (run remove init (pre ++ Deploy :: post)))) = Some d <->
+  exists x, In x (defs (fst (run remove init pre))) /\ builds x = true /\ nm x = k /\ doc x = d.
 Proof. exact deployed_exactly. Qed.
 
 Theorem C17_mutation_undeploys : forall pre o post k, forallb is_eval post = true ->
   mutates (fst (arun ainit pre)) o = true ->
-  mem k (evs (fst (run remove init (pre ++ o :: post)))) = false.
+  lookup k (evs (fst (run remove init (pre ++ o :: post)))) = None.
 Proof. exact mutation_undeploys. Qed.
 
 Theorem C17_failed_build_isolated : forall ops d, let s := fst (run remove init ops) in
-  In d (defs s) -> builds d = true -> mem (nm d) (evs (deploy s)) = true.
+  In d (defs s) -> builds d = true -> lookup (nm d) (evs (deploy s)) = Some (doc d).
 Proof. exact failed_build_isolated. Qed.
 
 Theorem C17_orig_remove_refuted : exists ops,
@@ -38,8 +40,102 @@ Proof. exact orig_remove_refuted. Qed.
 
 Example C17_nonvacuous :
   let s := fst (run remove init [Add mA; Add mE; Add mB; Remove 2 12; Deploy]) in
-  defs s = [mA; mE] /\ mem 11 (evs s) = true /\ mem 14 (evs s) = false.
+  defs s = [mA; mE] /\ lookup 11 (evs s) = Some 101 /\ lookup 14 (evs s) = None.
 Proof. exact reachable_nontrivial. Qed.
+
+(* ---- the abstract workspace of C17/Abstract.v: a set of stored documents and a served relation, every operation given by
+   a predicate on membership (add: both keys free, the set gains exactly the element; remove n k: the set minus every element
+   whose namespace is n or whose name is k; replace: remove by both keys, then add; clear; deploy: exactly the stored
+   documents that build are served; eval: answered by the document served).  It shares no function with the ImplModel. ---- *)
+
+(* for every history the states (read through abs) and the results of the ImplModel are a run of the abstract workspace *)
+Theorem C17_refines_abstract_spec : forall ops,
+  aruns aempty ops (abs (fst (run remove init ops))) (snd (run remove init ops)).
+Proof. exact refines_abstract_spec. Qed.
+
+(* ... and the only one: the abstract workspace determines state and results *)
+Theorem C17_refines_abstract_spec_unique : forall ops a xs, aruns aempty ops a xs ->
+  aeq a (abs (fst (run remove init ops))) /\ xs = snd (run remove init ops).
+Proof. exact refines_abstract_spec_unique. Qed.
+
+Theorem C17_abstract_deterministic : forall a o a1 x1 a2 x2, AInv a ->
+  aspec a o a1 x1 -> aspec a o a2 x2 -> aeq a1 a2 /\ x1 = x2.
+Proof. exact aspec_deterministic. Qed.
+
+(* namespaces and names are keys of the stored set, and what is served is stored and builds, after every history *)
+Theorem C17_abstract_invariant : forall ops a xs, aruns aempty ops a xs -> AInv a.
+Proof. exact abstract_invariant. Qed.
+
+(* the sentences of the property, about the abstract workspace *)
+Theorem C17_abs_add_iff_free : forall a m a' r, aspec a (Add m) a' (OAdd r) ->
+  (r = true <-> free a m) /\
+  (r = true -> (forall x, stored a' x <-> stored a x \/ x = m) /\ nothing_served a') /\
+  (r = false -> aeq a a').
+Proof. exact abs_add_iff_free. Qed.
+
+Theorem C17_abs_remove_exactly : forall a n k a' x, aspec a (Remove n k) a' x ->
+  (forall y, stored a' y <-> stored a y /\ ns y <> n /\ nm y <> k) /\ nothing_served a'.
+Proof. exact abs_remove_exactly. Qed.
+
+Theorem C17_abs_remove_no_stale_key : forall a n k a' x, AInv a -> aspec a (Remove n k) a' x ->
+  forall z, stored a z -> ~ stored a' z -> forall y, stored a' y -> ns y <> ns z /\ nm y <> nm z.
+Proof. exact abs_remove_no_stale_key. Qed.
+
+Theorem C17_abs_remove_then_add : forall a n k a1 x m a2 r, aspec a (Remove n k) a1 x -> ns m = n -> nm m = k ->
+  aspec a1 (Add m) a2 (OAdd r) -> r = true.
+Proof. exact abs_remove_then_add. Qed.
+
+Theorem C17_abs_replace : forall a m a' x, aspec a (Replace m) a' x ->
+  x = OAdd true /\ (forall y, stored a' y <-> y = m \/ (stored a y /\ ns y <> ns m /\ nm y <> nm m)) /\ nothing_served a'.
+Proof. exact abs_replace. Qed.
+
+Theorem C17_abs_modification_undeploys : forall a o a' x, aspec a o a' x -> modifies o x -> nothing_served a'.
+Proof. exact abs_modification_undeploys. Qed.
+
+Theorem C17_abs_deploy_exactly : forall a a' x, aspec a Deploy a' x ->
+  (forall y, stored a' y <-> stored a y) /\
+  (forall k d, served a' k d <-> exists y, stored a y /\ builds y = true /\ nm y = k /\ doc y = d).
+Proof. exact abs_deploy_exactly. Qed.
+
+Theorem C17_abs_eval_answer : forall a k a' r, AInv a -> aspec a (Eval k) a' (OEval r) ->
+  aeq a a' /\ (forall d, r = Some d <-> served a k d).
+Proof. exact abs_eval_answer. Qed.
+
+Theorem C17_abs_evaluable_exactly : forall pre post a xs k d, forallb is_eval post = true ->
+  aruns aempty (pre ++ Deploy :: post) a xs ->
+  exists a0 xs0, aruns aempty pre a0 xs0 /\
+    (served a k d <-> exists y, stored a0 y /\ builds y = true /\ nm y = k /\ doc y = d).
+Proof. exact abs_evaluable_exactly. Qed.
+
+(* transferred to the ImplModel: replace, deploy, evaluate serves the NEW document after every history *)
+Theorem C17_replace_serves_new_document : forall pre m, builds m = true ->
+  snd (run remove init (pre ++ [Replace m; Deploy; Eval (nm m)])) =
+  snd (run remove init pre) ++ [OAdd true; OUnit; OEval (Some (doc m))].
+Proof. exact replace_serves_new_document. Qed.
+
+Theorem C17_replace_not_building : forall pre m, builds m = false ->
+  snd (run remove init (pre ++ [Replace m; Deploy; Eval (nm m)])) =
+  snd (run remove init pre) ++ [OAdd true; OUnit; OEval None].
+Proof. exact replace_not_building. Qed.
+
+Theorem C17_impl_remove_exactly : forall ops n k x, let s := fst (run remove init ops) in
+  In x (defs (fst (step remove s (Remove n k)))) <-> In x (defs s) /\ ns x <> n /\ nm x <> k.
+Proof. exact impl_remove_exactly. Qed.
+
+Theorem C17_impl_remove_frees_both_keys : forall ops n k z m, let s := fst (run remove init ops) in
+  In z (defs s) -> ~ In z (defs (remove s n k)) -> ns m = ns z -> nm m = nm z ->
+  snd (add (remove s n k) m) = true.
+Proof. exact impl_remove_frees_both_keys. Qed.
+
+Example C17_abstract_nonvacuous :
+  snd (run remove init [Add mA; Deploy; Eval 11; Replace mA'; Eval 11; Deploy; Eval 11; Add mA; Eval 11]) =
+  [OAdd true; OUnit; OEval (Some 101); OAdd true; OEval None; OUnit; OEval (Some 105); OAdd false; OEval (Some 105)] /\
+  aruns aempty [Add mA; Deploy; Eval 11; Replace mA']
+    (abs (fst (run remove init [Add mA; Deploy; Eval 11; Replace mA'])))
+    [OAdd true; OUnit; OEval (Some 101); OAdd true] /\
+  stored (abs (fst (run remove init [Add mA; Deploy; Eval 11; Replace mA']))) mA' /\
+  ~ stored (abs (fst (run remove init [Add mA; Deploy; Eval 11; Replace mA']))) mA.
+Proof. exact abstract_nonvacuous. Qed.
 
 Print Assumptions C17_reachable_inv.
 Print Assumptions C17_refines_abstract.
@@ -49,3 +145,21 @@ Print Assumptions C17_mutation_undeploys.
 Print Assumptions C17_failed_build_isolated.
 Print Assumptions C17_orig_remove_refuted.
 Print Assumptions C17_nonvacuous.
+Print Assumptions C17_refines_abstract_spec.
+Print Assumptions C17_refines_abstract_spec_unique.
+Print Assumptions C17_abstract_deterministic.
+Print Assumptions C17_abstract_invariant.
+Print Assumptions C17_abs_add_iff_free.
+Print Assumptions C17_abs_remove_exactly.
+Print Assumptions C17_abs_remove_no_stale_key.
+Print Assumptions C17_abs_remove_then_add.
+Print Assumptions C17_abs_replace.
+Print Assumptions C17_abs_modification_undeploys.
+Print Assumptions C17_abs_deploy_exactly.
+Print Assumptions C17_abs_eval_answer.
+Print Assumptions C17_abs_evaluable_exactly.
+Print Assumptions C17_replace_serves_new_document.
+Print Assumptions C17_replace_not_building.
+Print Assumptions C17_impl_remove_exactly.
+Print Assumptions C17_impl_remove_frees_both_keys.
+Print Assumptions C17_abstract_nonvacuous.
